@@ -16,6 +16,7 @@ const (
 	KBool SortKind = iota
 	KBV
 	KF64
+	KInt
 )
 
 type Sort struct {
@@ -26,6 +27,7 @@ type Sort struct {
 var (
 	Bool = Sort{K: KBool}
 	F64  = Sort{K: KF64}
+	Int  = Sort{K: KInt}
 )
 
 func BV(w int) Sort { return Sort{K: KBV, W: w} }
@@ -36,6 +38,8 @@ func (s Sort) String() string {
 		return "Bool"
 	case KBV:
 		return fmt.Sprintf("(_ BitVec %d)", s.W)
+	case KInt:
+		return "Int"
 	}
 	return "F64"
 }
@@ -97,6 +101,10 @@ const (
 	OFNextUp // math.Nextafter(x, +Inf)
 	OFNextDown
 	OUF // uninterpreted function Name(args)
+	// order keys: non-NaN doubles as integers (order-isomorphic, -0 = -1, +0 = 0)
+	OFFromKey // int -> f64
+	OILt
+	OILe
 )
 
 var opNames = map[Op]string{
@@ -106,7 +114,7 @@ var opNames = map[Op]string{
 	OULt: "bvult", OULe: "bvule", OSLt: "bvslt", OSLe: "bvsle", OConcat: "concat", OExtract: "extract", OZExt: "zext", OSExt: "sext",
 	OFFromBits: "f.frombits", OFGrid: "f.grid", OFBits: "f.bits", OFAdd: "f.add", OFSub: "f.sub", OFMul: "f.mul", OFDiv: "f.div",
 	OFNeg: "f.neg", OFAbs: "f.abs", OFSqrt: "f.sqrt", OFLt: "f.lt", OFLe: "f.le", OFEq: "f.eq", OFIsNaN: "f.isnan", OFIsInf: "f.isinf",
-	OFIsNeg: "f.isneg", OFFromSInt: "f.fromsint", OFFromUInt: "f.fromuint", OFToSInt: "f.tosint", OFNextUp: "f.nextup", OFNextDown: "f.nextdown", OUF: "uf",
+	OFIsNeg: "f.isneg", OFFromSInt: "f.fromsint", OFFromUInt: "f.fromuint", OFToSInt: "f.tosint", OFNextUp: "f.nextup", OFNextDown: "f.nextdown", OUF: "uf", OFFromKey: "f.fromkey", OILt: "<", OILe: "<=",
 }
 
 func (o Op) String() string { return opNames[o] }
@@ -153,6 +161,8 @@ func (t *Term) str(sb *strings.Builder, depth int) {
 		switch t.Sort.K {
 		case KBool:
 			fmt.Fprintf(sb, "%v", t.U == 1)
+		case KInt:
+			fmt.Fprintf(sb, "%d", int64(t.U))
 		case KBV:
 			fmt.Fprintf(sb, "%d:%d", t.Int(), t.Sort.W)
 		case KF64:
@@ -178,13 +188,16 @@ func (t *Term) str(sb *strings.Builder, depth int) {
 
 // Ctx owns the hash-cons table. Not safe for concurrent use.
 type Ctx struct {
+	// NonNaN holds IDs of bv64 variables whose float reading is assumed (in
+	// the path condition) not to be NaN; NaN tests on them fold to false.
+	NonNaN map[int]bool
 	tab   map[string]*Term
 	terms []*Term
 	Vars  []*Term
 	nfree int
 }
 
-func NewCtx() *Ctx { return &Ctx{tab: map[string]*Term{}} }
+func NewCtx() *Ctx { return &Ctx{tab: map[string]*Term{}, NonNaN: map[int]bool{}} }
 
 func (c *Ctx) NumTerms() int { return len(c.terms) }
 
@@ -248,6 +261,104 @@ func (c *Ctx) BVC(w int, v uint64) *Term { return c.mk(OConst, BV(w), nil, v&mas
 func (c *Ctx) IntC(w int, v int64) *Term { return c.BVC(w, uint64(v)) }
 func (c *Ctx) FC(f float64) *Term        { return c.mk(OConst, F64, nil, math.Float64bits(f), "", 0, 0) }
 func (c *Ctx) FCBits(b uint64) *Term     { return c.mk(OConst, F64, nil, b, "", 0, 0) }
+
+// ---- integers (order keys) ----
+
+func (c *Ctx) IntConst(v int64) *Term { return c.mk(OConst, Int, nil, uint64(v), "", 0, 0) }
+
+// KeyOfBits maps a non-NaN IEEE pattern to its order key.
+func KeyOfBits(u uint64) int64 {
+	if u>>63 == 1 {
+		return int64(u ^ 0x7fffffffffffffff)
+	}
+	return int64(u)
+}
+
+// BitsOfKey is the inverse of KeyOfBits.
+func BitsOfKey(k int64) uint64 {
+	if k < 0 {
+		return uint64(k) ^ 0x7fffffffffffffff
+	}
+	return uint64(k)
+}
+
+var (
+	KeyPInf = KeyOfBits(0x7ff0000000000000)
+	KeyNInf = KeyOfBits(0xfff0000000000000)
+)
+
+func (c *Ctx) ILt(a, b *Term) *Term {
+	if a.IsConst() && b.IsConst() {
+		return c.BoolC(int64(a.U) < int64(b.U))
+	}
+	if a == b {
+		return c.False()
+	}
+	return c.mk(OILt, Bool, []*Term{a, b}, 0, "", 0, 0)
+}
+func (c *Ctx) ILe(a, b *Term) *Term {
+	if a.IsConst() && b.IsConst() {
+		return c.BoolC(int64(a.U) <= int64(b.U))
+	}
+	if a == b {
+		return c.True()
+	}
+	return c.mk(OILe, Bool, []*Term{a, b}, 0, "", 0, 0)
+}
+
+// FFromKey is the float whose order key is k.
+func (c *Ctx) FFromKey(k *Term) *Term {
+	if k.IsConst() {
+		return c.FCBits(BitsOfKey(int64(k.U)))
+	}
+	if k.Op == OIte {
+		return c.Ite(k.Args[0], c.FFromKey(k.Args[1]), c.FFromKey(k.Args[2]))
+	}
+	return c.mk(OFFromKey, F64, []*Term{k}, 0, "", 0, 0)
+}
+
+// KeyBacked reports whether t's order key is available as an Int term.
+func KeyBacked(t *Term) bool {
+	switch t.Op {
+	case OConst:
+		return !isNaNBits(t.U)
+	case OFFromKey:
+		return true
+	case OIte:
+		return KeyBacked(t.Args[1]) && KeyBacked(t.Args[2])
+	}
+	return false
+}
+
+func hasKey(t *Term) bool {
+	switch t.Op {
+	case OFFromKey:
+		return true
+	case OIte:
+		return hasKey(t.Args[1]) || hasKey(t.Args[2])
+	}
+	return false
+}
+
+// FKey returns the order key of a key-backed float.
+func (c *Ctx) FKey(t *Term) *Term {
+	switch t.Op {
+	case OConst:
+		return c.IntConst(KeyOfBits(t.U))
+	case OFFromKey:
+		return t.Args[0]
+	case OIte:
+		return c.Ite(t.Args[0], c.FKey(t.Args[1]), c.FKey(t.Args[2]))
+	}
+	panic("FKey of non key-backed term " + t.String())
+}
+
+func (c *Ctx) keyIsZero(k *Term) *Term {
+	if k.Op == OIte {
+		return c.Ite(k.Args[0], c.keyIsZero(k.Args[1]), c.keyIsZero(k.Args[2]))
+	}
+	return c.Or(c.Eq(k, c.IntConst(0)), c.Eq(k, c.IntConst(-1)))
+}
 
 // ---- booleans ----
 
@@ -776,6 +887,12 @@ func (c *Ctx) nanBits(b *Term) *Term {
 	if b.Op == OIte {
 		return c.Ite(b.Args[0], c.nanBits(b.Args[1]), c.nanBits(b.Args[2]))
 	}
+	if b.Op == OVar && c.NonNaN[b.ID] {
+		return c.False()
+	}
+	if b.IsConst() {
+		return c.BoolC(isNaNBits(b.U))
+	}
 	return c.ULt(c.BVC(64, 0x7ff0000000000000), c.BAnd(b, c.BVC(64, 0x7fffffffffffffff)))
 }
 
@@ -807,6 +924,9 @@ func (c *Ctx) orderKey(b *Term) *Term {
 // FTotLe is the total order used by math.Min/Max on non-NaN values: IEEE <=
 // refined by -0 < +0.
 func (c *Ctx) FTotLe(a, b *Term) *Term {
+	if KeyBacked(a) && KeyBacked(b) && (hasKey(a) || hasKey(b)) {
+		return c.ILe(c.FKey(a), c.FKey(b))
+	}
 	if BitsBacked(a) && BitsBacked(b) {
 		return c.SLe(c.orderKey(c.FBits(a)), c.orderKey(c.FBits(b)))
 	}
@@ -815,6 +935,18 @@ func (c *Ctx) FTotLe(a, b *Term) *Term {
 }
 
 func (c *Ctx) fcmp(op Op, a, b *Term) *Term {
+	if KeyBacked(a) && KeyBacked(b) && (hasKey(a) || hasKey(b)) {
+		ka, kb := c.FKey(a), c.FKey(b)
+		bothZero := c.And(c.keyIsZero(ka), c.keyIsZero(kb))
+		switch op {
+		case OFLt:
+			return c.And(c.ILt(ka, kb), c.Not(bothZero))
+		case OFLe:
+			return c.Or(c.ILe(ka, kb), bothZero)
+		default:
+			return c.Or(c.Eq(ka, kb), bothZero)
+		}
+	}
 	if LowerCmp && BitsBacked(a) && BitsBacked(b) && !(a.IsConst() && b.IsConst()) {
 		if a.IsConst() && isNaNBits(a.U) || b.IsConst() && isNaNBits(b.U) {
 			return c.False()
@@ -861,7 +993,7 @@ func (c *Ctx) FIsNaN(a *Term) *Term {
 	if a.IsConst() {
 		return c.BoolC(isNaNBits(a.U))
 	}
-	if a.Op == OFGrid {
+	if a.Op == OFGrid || (KeyBacked(a) && hasKey(a)) {
 		return c.False()
 	}
 	if LowerCmp && BitsBacked(a) {
@@ -876,6 +1008,10 @@ func (c *Ctx) FIsInf(a *Term) *Term {
 	if a.Op == OFGrid {
 		return c.False()
 	}
+	if KeyBacked(a) && hasKey(a) {
+		k := c.FKey(a)
+		return c.Or(c.Eq(k, c.IntConst(KeyPInf)), c.Eq(k, c.IntConst(KeyNInf)))
+	}
 	if LowerCmp && BitsBacked(a) {
 		return c.Eq(c.BAnd(c.FBits(a), c.BVC(64, 0x7fffffffffffffff)), c.BVC(64, 0x7ff0000000000000))
 	}
@@ -884,6 +1020,9 @@ func (c *Ctx) FIsInf(a *Term) *Term {
 func (c *Ctx) FIsNeg(a *Term) *Term {
 	if a.IsConst() {
 		return c.BoolC(a.U>>63 == 1)
+	}
+	if KeyBacked(a) && hasKey(a) {
+		return c.ILt(c.FKey(a), c.IntConst(0))
 	}
 	if BitsBacked(a) {
 		return c.Eq(c.Extract(c.FBits(a), 63, 63), c.BVC(1, 1))
@@ -1054,6 +1193,12 @@ func (c *Ctx) eval(t *Term, m Model, memo map[int]uint64) uint64 {
 		r = uint64(sext(ev(0), t.Args[0].Sort.W)) & mask(t.Sort.W)
 	case OFFromBits:
 		r = ev(0)
+	case OFFromKey:
+		r = BitsOfKey(int64(ev(0)))
+	case OILt:
+		r = b2u(int64(ev(0)) < int64(ev(1)))
+	case OILe:
+		r = b2u(int64(ev(0)) <= int64(ev(1)))
 	case OFGrid:
 		r = math.Float64bits(math.Ldexp(float64(sext(ev(0), t.Args[0].Sort.W)), -t.I))
 	case OFBits:
